@@ -197,7 +197,7 @@ def main():
             ck.extra['orthogonality'] = {k: info[k] for k in ('pairs', 'phi_certs', 'theta_certs', 'non_orthogonal')}
     if res is not None:
         ck.step_prove('P_C17')
-    n = 240 if ck.thorough() else 45
+    n = 900 if ck.thorough() else 45
     goals = run_cases(ck, res, n, 25 if ck.thorough() else 5)
     if res is not None:
         ck.step_interval_goals('corr', goals)
